@@ -1,4 +1,5 @@
 import StraxModel.Lemmas.ChunkAlgChunk
+import StraxModel.Lemmas.RunOrder
 /-
   Helper lemmas for property C07, part 4: chunks WITH sub-run annotations (superrun chunks).
   Shape covered (`Chunk.annotated`): well-formed rows, `run_id = some rid`, default super-run entry
@@ -44,10 +45,8 @@ theorem Tiled.sorted {rs : Runs} (h : Tiled rs) : rs.Pairwise (fun a b => a.star
     have := hpos r (by simp)
     omega
 
-theorem sortRuns_tiled {rs : Runs} (h : Tiled rs) : sortRuns rs = rs := by
-  unfold sortRuns
-  apply List.mergeSort_of_pairwise
-  exact h.sorted.imp (by intro a b hab; simpa using hab)
+theorem sortRuns_tiled {rs : Runs} (h : Tiled rs) : sortRuns rs = rs :=
+  sortRuns_of_sortedLex h.1 h.2.2
 
 theorem runsOverlap_tiled {rs : Runs} (h : Tiled rs) : runsOverlap rs = false := by
   obtain ⟨hp, -, -⟩ := h
